@@ -62,6 +62,9 @@ def cases(tier, seed):
     if quick:
         for u in ("nm", "mm"):
             out.append(dict(fam="run", dev="G1", drive="both", screening=True, units=u))
+    # a z-dependent source and a film away from z = 0
+    for d, drive, u in itertools.product(devs[:1] if quick else devs, ("loop", "loop_t"), ("nm", "mm")):
+        out.append(dict(fam="run", dev=d, drive=drive, screening=False, units=u))
     # thermalisation first (the recorded stage restarts step counter and clock on the same solver)
     for d, drive, u in itertools.product(devs[:1] if quick else devs, ("ramp_fast", "callable_current"), ("nm", "mm")):
         out.append(dict(fam="run", dev=d, drive=drive, screening=False, units=u, thermal=True))
@@ -91,6 +94,14 @@ def _problem(dev_name, drive, units, screening):
         base = {2: [0.8, -0.8], 3: [0.3, 0.5, -0.8]}[len(names)]
         kw["applied_vector_potential"] = 0.2 * s
         kw["terminal_currents"] = _CurrentRamp(names, [b * s for b in base])
+    if drive in ("loop", "loop_t"):
+        # a z-dependent source (current loop above the film) and a film that does not sit at z = 0: heights are lengths too
+        from tdgl.sources import CurrentLoop, LinearRamp
+
+        dev = dev.copy()
+        dev.layer.z0 = 0.4 * s
+        loop = CurrentLoop(current=4000.0 * s, radius=1.5 * s, center=(0.3 * s, -0.2 * s, 1.0 * s), current_units=cu, field_units=fu, length_units=lu)
+        kw["applied_vector_potential"] = loop if drive == "loop" else LinearRamp(tmin=0.0, tmax=0.1, initial=0.5, final=1.0) * loop
     if drive in ("field", "both"):
         kw["applied_vector_potential"] = 0.4 * s
     if drive in ("current", "both"):
